@@ -142,9 +142,8 @@ func newV2(prefix string, ct *Controllers) (cg Cgroup, err error) {
 		path:    filepath.Join(basePath, prefix),
 		control: ct,
 	}
-	if _, err := os.Stat(v2.path); err == nil {
-		v2.existing = true
-	}
+	// existing unless the mkdir of the last path element below succeeds
+	v2.existing = true
 	defer func() {
 		if err != nil && !v2.existing {
 			remove(v2.path)
@@ -161,12 +160,13 @@ func newV2(prefix string, ct *Controllers) (cg Cgroup, err error) {
 	for _, e := range entries {
 		parent := current
 		current = current + "/" + e
-		// try mkdir if not exists
-		if _, err := os.Stat(filepath.Join(basePath, current)); os.IsNotExist(err) {
-			if err := os.Mkdir(filepath.Join(basePath, current), dirPerm); err != nil {
-				return nil, err
+		// mkdir is the atomic create-or-existing test
+		dir := filepath.Join(basePath, current)
+		if err := os.Mkdir(dir, dirPerm); err == nil {
+			if dir == v2.path {
+				v2.existing = false
 			}
-		} else if err != nil {
+		} else if !os.IsExist(err) {
 			return nil, err
 		}
 
